@@ -120,6 +120,9 @@ pub fn run(args: &Args) -> i32 {
         ("t108", vec![36, 36, 36]),
         ("u100", vec![30, 70]),
         ("q104", vec![26, 26, 26, 26]),
+        // p^2 * q: the sieve leaves a composite cofactor (p^2 or p*q), so the recursion after the sieve is entered
+        ("sq84", vec![28, 28]),
+        ("sq96", vec![30, 36]),
     ];
     if thorough {
         shapes.extend(vec![("b120", vec![60, 60]), ("b130", vec![65, 65]), ("t130", vec![40, 44, 46]), ("b140", vec![70, 70]),
@@ -134,7 +137,18 @@ pub fn run(args: &Args) -> i32 {
     // per aborted run): fewer inputs and flip points for it in the quick tier
     let ecm_shapes: &[&str] = if thorough { &["b64", "b82", "t90", "u100", "b120", "t130"] } else { &["b70", "u100"] };
     for (name, bits) in shapes.iter() {
-        let inp = make_input(&mut pool, &format!("{}-s{}", name, seed), bits);
+        let inp = if name.starts_with("sq") {
+            let mut inp = make_input(&mut pool, &format!("{}-s{}", name, seed), bits);
+            // square the first prime
+            let p = inp.primes[0];
+            inp.n = inp.n * p;
+            inp.primes.insert(0, p);
+            let c = inp.chains[0].clone();
+            inp.chains.insert(0, c);
+            inp
+        } else {
+            make_input(&mut pool, &format!("{}-s{}", name, seed), bits)
+        };
         for sel in selectors {
             if sel == "Qs" && inp.n.bits() > 100 {
                 continue; // the plain QS needs seconds per run above 100 bits
